@@ -168,8 +168,8 @@ BASE_RETURNS = [
      ["core::ptr::slice_from_raw_parts_mut($bytes, core::option::Option::<T>::unwrap_or(core::num::<impl usize>::checked_div(utils::floor_mul(Sub(mem::slice_ptr_len($bytes), <fc::vec::FlatVec<T, L> as fc::vec::DataOffset<T, L>>::DATA_OFFSET), <fc::vec::FlatVec<T, L> as FlatBase>::ALIGN), %s), 18446744073709551615))" % S("T")],
      "FlatVec capacity = floor(len - DATA_OFFSET, ALIGN) / SIZE, unbounded for zero-sized elements (view never exceeds the slice)"),
     (dict(krate="flatty_containers", trait="flatty_base::traits::FlatUnsized", method="ptr_to_bytes", self_adt="flatty_containers::vec::FlatVec"),
-     ["core::ptr::slice_from_raw_parts_mut($this, Add(<fc::vec::FlatVec<T, L> as fc::vec::DataOffset<T, L>>::DATA_OFFSET, Mul(%s, mem::slice_ptr_len($this))))" % S("T")],
-     "FlatVec bytes = DATA_OFFSET + capacity * SIZE"),
+     ["core::ptr::slice_from_raw_parts_mut($this, utils::ceil_mul(Add(<fc::vec::FlatVec<T, L> as fc::vec::DataOffset<T, L>>::DATA_OFFSET, Mul(%s, mem::slice_ptr_len($this))), <fc::vec::FlatVec<T, L> as FlatBase>::ALIGN))" % S("T")],
+     "FlatVec bytes = ceil(DATA_OFFSET + capacity * SIZE, ALIGN): the whole value, so that its own bytes map back to the same capacity"),
     (dict(krate="flatty_containers", trait="flatty_base::traits::FlatUnsized", method="ptr_from_bytes", self_adt="flatty_containers::string::FlatString"),
      ["core::ptr::slice_from_raw_parts_mut($bytes, utils::floor_mul(Sub(mem::slice_ptr_len($bytes), <fc::string::FlatString<L> as fc::string::DataOffset<L>>::DATA_OFFSET), <fc::string::FlatString<L> as FlatBase>::ALIGN))"],
      "FlatString capacity = floor(len - DATA_OFFSET, ALIGN)"),
